@@ -23,7 +23,8 @@ Note(e, S) ==
   viol' = IF S = {} \/ Len(viol) >= MaxViol THEN viol
           ELSE viol \o SetToSeq({ [l |-> l, run |-> e.run, prop |-> x[1], why |-> x[2],
                                    ev |-> e.ev, tr |-> tr, kind |-> kind, cctx |-> cctx,
-                                   closeSend |-> closeSend, hState |-> hState, hSawEOF |-> hSawEOF] : x \in S })
+                                   closeSend |-> closeSend, hState |-> hState, hSawEOF |-> hSawEOF,
+                                   card |-> CardinalityError] : x \in S })
 
 Same == UNCHANGED vars
 
